@@ -60,8 +60,9 @@ structure Good (cm : Bool) (s : PS) : Prop where
   backlog : ∀ t ∈ s.backlog, TokL cm t
   fin : (final s).terminal = true ∧ TokL cm (final s)
 
-/-- errors carry a line; the marker of the unmodelled forms can only occur in the mode `cm = false` -/
-def ErrOk (cm : Bool) (e : PErr) : Prop := 1 ≤ e.line ∨ (cm = false ∧ e.cls = unmodelled)
+/-- errors carry a line (every form of the language is modelled; the mode `cm` is a leftover of the
+time when some were not and is not used any more) -/
+def ErrOk (cm : Bool) (e : PErr) : Prop := 1 ≤ e.line
 
 variable {cm : Bool}
 
@@ -121,11 +122,6 @@ theorem tri_bind {α β : Type} {B : Nat} {m : PM α} {f : α → PM β} {d : α
       rw [hfs] at h2
       exact ⟨h2.1, by omega, h2.2.2⟩
 
-theorem tri_throw_unmodelled {α : Type} (B : Nat) (d : α → Nat) (P : α → Prop) (hc : cm = false) :
-    Tri cm B (throw { line := 0, cls := unmodelled } : PM α) d P := by
-  intro s _ _
-  simp [throw_run, ErrOk, hc]
-
 /-- what `readItem` does to a good state, and that the item can be pushed back -/
 theorem readItem_spec (s : PS) (g : Good cm s) :
     ∃ t s1, readItem s = .ok (t, s1) ∧ Good cm s1 ∧ mu s1 + nt t = mu s ∧ TokL cm t ∧
@@ -183,7 +179,7 @@ theorem tri_fatal {α : Type} (B : Nat) (cls : String) (d : α → Nat) (P : α 
     obtain ⟨t, s'⟩ := p
     rw [hp] at this
     simp only [throw_run]
-    exact Or.inl this.2.2.1
+    exact this.2.2.1
 
 /-- `optional` for item kinds that are not EOF/error: `true` means an item was consumed -/
 theorem tri_optional (B : Nat) (types : List Nat) (h0 : ¬ tEOF ∈ types) (h1 : ¬ tError ∈ types) :
@@ -1041,6 +1037,470 @@ theorem tri_readGpos4 (f : Font) (fuel B : Nat) (h : B < fuel) : Tri cm B (readG
   intro subs _
   exact tri_pure _ _
 
+/-! ### contextual forms -/
+
+theorem tri_optionalKeyword_dec (B : Nat) (kw : List Nat) :
+    Tri cm B (optionalKeyword kw) (fun b => if b then 1 else 0) pT := by
+  intro s g hs
+  obtain ⟨t, s1, h, g1, hm, hl, g2, hm2⟩ := readItem_spec s g
+  unfold optionalKeyword
+  rw [bind_run, h]
+  simp only []
+  by_cases hc : isIdent t kw = true
+  · simp only [hc, if_true]
+    have hnt : nt t = 1 := by
+      have ht : t.typ = tIdentifier := by
+        simp only [isIdent, Bool.and_eq_true, beq_iff_eq] at hc
+        exact hc.1
+      simp [nt, Tok.terminal, ht, tIdentifier, tEOF, tError]
+    rw [bind_run]
+    have hp := tri_peek (cm := cm) B s1 g1 (by omega)
+    cases hpk : peek s1 with
+    | error e => rw [hpk] at hp; simpa using hp
+    | ok p =>
+      obtain ⟨t2, s2⟩ := p
+      rw [hpk] at hp
+      obtain ⟨g2', hmu2, _⟩ := hp
+      simp only [d0] at hmu2
+      by_cases hcol : (t2.typ == tColon) = true
+      · simp only [hcol, if_true, pure_run]
+        exact ⟨g2', by show mu s2 + 1 ≤ mu s; omega, trivial⟩
+      · have hcol' : (t2.typ == tColon) = false := by simpa using hcol
+        simp only [hcol', Bool.false_eq_true, if_false, bind_run, pushBack_run, pure_run]
+        refine ⟨⟨g2'.toks, ?_, g2'.fin⟩, ?_, trivial⟩
+        · intro u hu
+          simp only [List.mem_cons] at hu
+          rcases hu with rfl | hu
+          · exact hl
+          · exact g2'.backlog u hu
+        · have : mu { s2 with backlog := t :: s2.backlog } = mu s2 + nt t := by
+            simp [mu, wsum]; omega
+          rw [this]
+          show mu s2 + nt t + 0 ≤ mu s
+          omega
+  · have hc' : isIdent t kw = false := by simpa using hc
+    simp only [hc', Bool.false_eq_true, if_false, bind_run, pushBack_run, pure_run]
+    exact ⟨g2, by simp; omega, trivial⟩
+
+theorem tri_peekType2 (B : Nat) : Tri cm B peekType2 d0 pT := by
+  intro s g hs
+  obtain ⟨t, s1, h, g1, hm, hl, g2, hm2⟩ := readItem_spec s g
+  unfold peekType2
+  rw [bind_run, h]
+  simp only []
+  by_cases hc : (t.typ == tBar) = true
+  · simp only [hc, if_true]
+    rw [bind_run]
+    have hp := tri_peek (cm := cm) B s1 g1 (by omega)
+    cases hpk : peek s1 with
+    | error e => rw [hpk] at hp; simpa using hp
+    | ok p =>
+      obtain ⟨t2, s2⟩ := p
+      rw [hpk] at hp
+      simp only [bind_run, pushBack_run, pure_run]
+      obtain ⟨g2', hmu2, _⟩ := hp
+      refine ⟨⟨g2'.toks, ?_, g2'.fin⟩, ?_, trivial⟩
+      · intro u hu
+        simp only [List.mem_cons] at hu
+        rcases hu with rfl | hu
+        · exact hl
+        · exact g2'.backlog u hu
+      · have : mu { s2 with backlog := t :: s2.backlog } = mu s2 + nt t := by
+          simp [mu, wsum]; omega
+        rw [this]
+        simp only [d0] at hmu2 ⊢
+        omega
+  · have hc' : (t.typ == tBar) = false := by simpa using hc
+    simp only [hc', Bool.false_eq_true, if_false, bind_run, pushBack_run, pure_run]
+    exact ⟨g2, by simp; omega, trivial⟩
+
+theorem isInt_nonterminal (t : Tok) (h : isInt t = true) : t.terminal = false := by
+  simp only [isInt, beq_iff_eq] at h
+  simp [Tok.terminal, h, tInteger, tEOF, tError]
+
+theorem tri_nestedLoop : ∀ (n B : Nat) (acc : List Action), B ≤ n → Tri cm B (nestedLoop n acc) d0 pT := by
+  intro n
+  induction n with
+  | zero => intro B acc h; have : B = 0 := by omega
+            subst this; exact tri_zero _ _ _
+  | succ n ih =>
+    intro B acc h
+    unfold nestedLoop
+    refine tri_bind (tri_takeIf B isInt isInt_nonterminal) ?_
+    intro r _
+    cases r with
+    | none => exact tri_pure _ _
+    | some item =>
+      simp only []
+      cases u16Of item with
+      | none => exact tri_fatal _ _ _ _
+      | some idx =>
+        simp only []
+        refine tri_bind (tri_required _ _) ?_
+        intro _ _
+        refine tri_bind (tri_weaken (tri_readItem _) (d' := d0) (fun _ => Nat.zero_le _) (fun _ _ => trivial)) ?_
+        intro item2 _
+        refine tri_ite (fun _ => tri_fatal _ _ _ _) (fun _ => ?_)
+        cases u16Of item2 with
+        | none => exact tri_fatal _ _ _ _
+        | some pos => exact ih _ _ (by simp [d0]; omega)
+
+theorem tri_bind_dec {α β : Type} {B k : Nat} {m : PM α} {f : α → PM β} {P : α → Prop}
+    {Q : β → Prop}
+    (hm : Tri cm B m (fun _ => k) P) (hf : ∀ a, P a → Tri cm (B - k) (f a) d0 Q) :
+    Tri cm B (m >>= f) (fun _ => k) Q := by
+  intro s g hs
+  rw [bind_run]
+  have h1 := hm s g hs
+  cases hms : m s with
+  | error err => rw [hms] at h1; simpa using h1
+  | ok p =>
+    obtain ⟨a, s'⟩ := p
+    rw [hms] at h1
+    simp only []
+    have e1 : mu s' + k ≤ mu s := h1.2.1
+    have h2 := hf a h1.2.2 s' h1.1 (by omega)
+    cases hfs : f a s' with
+    | error err => rw [hfs] at h2; simpa using h2
+    | ok q =>
+      obtain ⟨b, s''⟩ := q
+      rw [hfs] at h2
+      have e2 : mu s'' + 0 ≤ mu s' := h2.2.1
+      exact ⟨h2.1, by show mu s'' + k ≤ mu s; omega, h2.2.2⟩
+
+theorem tri_readClassName_dec (B : Nat) : Tri cm B readClassName (fun _ => 1) pT := by
+  unfold readClassName
+  refine tri_bind_dec (tri_required_dec _ tColon (by decide) (by decide)) ?_
+  intro _ _
+  refine tri_bind (tri_weaken (tri_readItem _) (d' := d0) (fun _ => Nat.zero_le _) (fun _ _ => trivial)) ?_
+  intro item _
+  refine tri_ite (fun _ => ?_) (fun _ => tri_ite (fun _ => tri_pure _ _) (fun _ => tri_fatal _ _ _ _))
+  refine tri_bind (tri_required _ _) ?_
+  intro _ _
+  exact tri_pure _ _
+
+theorem tri_classNamesLoop : ∀ (n B : Nat) (acc : List (List Nat)), B ≤ n → Tri cm B (classNamesLoop n acc) d0 pT := by
+  intro n
+  induction n with
+  | zero => intro B acc h; have : B = 0 := by omega
+            subst this; exact tri_zero _ _ _
+  | succ n ih =>
+    intro B acc h
+    unfold classNamesLoop
+    refine tri_bind (tri_peek B) ?_
+    intro next _
+    refine tri_ite (fun _ => tri_pure _ _) (fun _ => ?_)
+    refine tri_bind (tri_readClassName_dec _) ?_
+    intro nm _
+    exact ih _ _ (by simp [d0]; omega)
+
+theorem tri_readGlyphSet_dec (f : Font) (fuel B : Nat) (h : B ≤ fuel) :
+    Tri cm B (readGlyphSet f fuel) (fun _ => 1) pT := by
+  unfold readGlyphSet
+  refine tri_bind_dec (tri_required_dec _ tSquareBracketOpen (by decide) (by decide)) ?_
+  intro _ _
+  refine tri_bind (tri_readGlyphList f fuel _ (by omega)) ?_
+  intro res _
+  refine tri_bind (tri_required _ _) ?_
+  intro _ _
+  exact tri_pure _ _
+
+theorem tri_parseClassDef (f : Font) (fuel B : Nat) (h : B ≤ fuel) : Tri cm B (parseClassDef f fuel) d0 pT := by
+  unfold parseClassDef
+  refine tri_bind (tri_required _ _) ?_
+  intro _ _
+  refine tri_bind (tri_readIdentifier _) ?_
+  intro name _
+  refine tri_bind (tri_required _ _) ?_
+  intro _ _
+  refine tri_bind (tri_opt0 _ [tEqual] (by decide) (by decide)) ?_
+  intro _ _
+  refine tri_bind (tri_readGlyphSet f fuel _ (by simp [d0]; omega)) ?_
+  intro gids _
+  exact tri_ite (fun _ => tri_fatal _ _ _ _) (fun _ => tri_pure _ _)
+
+theorem tri_addClass (B : Nat) (m1 m2 : String) (st : ClsSt) (name gids : List Nat) :
+    Tri cm B (addClass m1 m2 st name gids) d0 pT := by
+  unfold addClass
+  exact tri_ite (fun _ => tri_fatal _ _ _ _) (fun _ => tri_ite (fun _ => tri_fatal _ _ _ _) (fun _ => tri_pure _ _))
+
+theorem tri_resolveNames (B : Nat) (idx : List (List Nat)) : ∀ names, Tri cm B (resolveNames idx names) d0 pT := by
+  intro names
+  induction names with
+  | nil => unfold resolveNames; exact tri_pure _ _
+  | cons nm rest ih =>
+    unfold resolveNames
+    refine tri_ite (fun _ => ?_) (fun _ => tri_ite (fun _ => ?_) (fun _ => tri_fatal _ _ _ _))
+    · refine tri_bind ih ?_; intro r _; exact tri_pure _ _
+    · refine tri_bind ih ?_; intro r _; exact tri_pure _ _
+
+theorem tri_ctx1Rule (f : Font) (fuel B : Nat) (h : B ≤ fuel) (res : List (Nat × List SeqRule)) :
+    Tri cm B (ctx1Rule f fuel res) d0 pT := by
+  unfold ctx1Rule
+  refine tri_bind (tri_readGlyphList f fuel B h) ?_
+  intro input _
+  refine tri_bind (tri_required _ _) ?_
+  intro _ _
+  refine tri_bind (tri_nestedLoop fuel _ [] (by simp [d0]; omega)) ?_
+  intro actions _
+  refine tri_ite (fun _ => ?_) (fun _ => tri_pure _ _)
+  refine tri_bind (tri_weaken (tri_readItem _) (d' := d0) (fun _ => Nat.zero_le _) (fun _ _ => trivial)) ?_
+  intro _ _
+  exact tri_fatal _ _ _ _
+
+theorem tri_ctx2Rule (fuel B : Nat) (h : B ≤ fuel) (idx : List (List Nat)) (rules : List (List SeqRule)) :
+    Tri cm B (ctx2Rule fuel idx rules) d0 pT := by
+  unfold ctx2Rule
+  refine tri_bind (tri_classNamesLoop fuel B [] h) ?_
+  intro names _
+  refine tri_bind (tri_required _ _) ?_
+  intro _ _
+  refine tri_bind (tri_nestedLoop fuel _ [] (by simp [d0]; omega)) ?_
+  intro actions _
+  refine tri_ite (fun _ => tri_fatal _ _ _ _) (fun _ => ?_)
+  refine tri_bind (tri_resolveNames _ _ _) ?_
+  intro input _
+  exact tri_pure _ _
+
+theorem tri_chain1Rule (f : Font) (fuel B : Nat) (h : B ≤ fuel) (res : List (Nat × List ChRule)) :
+    Tri cm B (chain1Rule f fuel res) d0 pT := by
+  unfold chain1Rule
+  refine tri_bind (tri_readGlyphList f fuel B h) ?_
+  intro backtrack _
+  refine tri_bind (tri_required _ _) ?_
+  intro _ _
+  refine tri_bind (tri_readGlyphList f fuel _ (by simp [d0]; omega)) ?_
+  intro input _
+  refine tri_bind (tri_required _ _) ?_
+  intro _ _
+  refine tri_bind (tri_readGlyphList f fuel _ (by simp [d0]; omega)) ?_
+  intro lookahead _
+  refine tri_bind (tri_required _ _) ?_
+  intro _ _
+  refine tri_bind (tri_nestedLoop fuel _ [] (by simp [d0]; omega)) ?_
+  intro actions _
+  refine tri_ite (fun _ => ?_) (fun _ => tri_pure _ _)
+  refine tri_bind (tri_weaken (tri_readItem _) (d' := d0) (fun _ => Nat.zero_le _) (fun _ _ => trivial)) ?_
+  intro _ _
+  exact tri_fatal _ _ _ _
+
+theorem tri_chain2Rule (fuel B : Nat) (h : B ≤ fuel) (bidx iidx lidx : List (List Nat)) (rules : List (List ChRule)) :
+    Tri cm B (chain2Rule fuel bidx iidx lidx rules) d0 pT := by
+  unfold chain2Rule
+  refine tri_bind (tri_classNamesLoop fuel B [] h) ?_
+  intro bnames _
+  refine tri_bind (tri_required _ _) ?_
+  intro _ _
+  refine tri_bind (tri_classNamesLoop fuel _ [] (by simp [d0]; omega)) ?_
+  intro inames _
+  refine tri_bind (tri_required _ _) ?_
+  intro _ _
+  refine tri_bind (tri_classNamesLoop fuel _ [] (by simp [d0]; omega)) ?_
+  intro lnames _
+  refine tri_bind (tri_required _ _) ?_
+  intro _ _
+  refine tri_bind (tri_nestedLoop fuel _ [] (by simp [d0]; omega)) ?_
+  intro actions _
+  refine tri_ite (fun _ => tri_fatal _ _ _ _) (fun _ => ?_)
+  refine tri_bind (tri_resolveNames _ _ _) ?_
+  intro input _
+  refine tri_bind (tri_resolveNames _ _ _) ?_
+  intro backtrack _
+  refine tri_bind (tri_resolveNames _ _ _) ?_
+  intro lookahead _
+  exact tri_pure _ _
+
+theorem tri_setsThen (f : Font) (fuel stop : Nat) (h0 : ¬ tEOF ∈ [stop]) (h1 : ¬ tError ∈ [stop]) :
+    ∀ (n B : Nat) (acc : List (List Nat)), B ≤ n → B ≤ fuel → Tri cm B (setsThen f fuel stop n acc) d0 pT := by
+  intro n
+  induction n with
+  | zero => intro B acc h _; have : B = 0 := by omega
+            subst this; exact tri_zero _ _ _
+  | succ n ih =>
+    intro B acc h hf
+    unfold setsThen
+    refine tri_bind (tri_readGlyphSet_dec f fuel B hf) ?_
+    intro st _
+    refine tri_bind (tri_opt0 _ [stop] h0 h1) ?_
+    intro b _
+    refine tri_ite (fun _ => tri_pure _ _) (fun _ => ?_)
+    exact ih _ _ (by simp [d0]; omega) (by simp [d0]; omega)
+
+theorem tri_setsUntil (f : Font) (fuel stop : Nat) (h0 : ¬ tEOF ∈ [stop]) (h1 : ¬ tError ∈ [stop]) :
+    ∀ (n B : Nat) (acc : List (List Nat)), B ≤ n → B ≤ fuel → Tri cm B (setsUntil f fuel stop n acc) d0 pT := by
+  intro n
+  induction n with
+  | zero => intro B acc h _; have : B = 0 := by omega
+            subst this; exact tri_zero _ _ _
+  | succ n ih =>
+    intro B acc h hf
+    unfold setsUntil
+    refine tri_bind (tri_opt0 _ [stop] h0 h1) ?_
+    intro b _
+    refine tri_ite (fun _ => tri_pure _ _) (fun _ => ?_)
+    refine tri_bind (tri_readGlyphSet_dec f fuel _ (by simp [d0]; omega)) ?_
+    intro st _
+    exact ih _ _ (by simp [d0]; omega) (by simp [d0]; omega)
+
+theorem tri_subEnd {σ : Type} (B : Nat) (r : Subtable × σ) (acc : List Subtable) (k : PM (List Subtable))
+    (hk : Tri cm (B - 1) k d0 pT) :
+    Tri cm B (optional [tOr] >>= fun b => if (!b) = true then pure (acc ++ [r.1]) else
+      (optional [tEOL] >>= fun _ => k)) d0 pT := by
+  refine tri_bind (tri_optional _ [tOr] (by decide) (by decide)) ?_
+  intro b _
+  cases b with
+  | false => simp only [Bool.not_false, if_true]; exact tri_pure _ _
+  | true =>
+    simp only [Bool.not_true, Bool.false_eq_true, if_false]
+    refine tri_bind (tri_opt0 _ [tEOL] (by decide) (by decide)) ?_
+    intro _ _
+    exact tri_mono (by simp [d0]) hk
+
+theorem tri_ctxLoop (f : Font) (fuel : Nat) : ∀ (n B : Nat) (st : ClsSt) (acc : List Subtable),
+    B ≤ n → B ≤ fuel → Tri cm B (ctxLoop f fuel n st acc) d0 pT := by
+  intro n
+  induction n with
+  | zero => intro B st acc h _; have : B = 0 := by omega
+            subst this; exact tri_zero _ _ _
+  | succ n ih =>
+    intro B st acc h hf
+    unfold ctxLoop
+    refine tri_bind (tri_optionalKeyword_dec B kwClass) ?_
+    intro b _
+    cases b with
+    | true =>
+      simp only [if_true]
+      refine tri_bind (tri_parseClassDef f fuel _ (by simp; omega)) ?_
+      intro d _
+      refine tri_bind (tri_addClass _ _ _ _ _ _) ?_
+      intro st' _
+      refine tri_bind (tri_opt0 _ [tEOL] (by decide) (by decide)) ?_
+      intro _ _
+      exact ih _ _ _ (by simp [d0]; omega) (by simp [d0]; omega)
+    | false =>
+      simp only [Bool.false_eq_true, if_false]
+      refine tri_bind (tri_peek _) ?_
+      intro next _
+      have hB : B - 0 - 0 ≤ fuel := by omega
+      refine tri_bind (P := pT) (d := d0) ?_ ?_
+      · refine tri_ite (fun _ => ?_) (fun _ => tri_ite (fun _ => ?_) (fun _ => ?_))
+        · refine tri_bind (tri_required _ _) ?_
+          intro _ _
+          refine tri_bind (tri_readGlyphList f fuel _ (by simp [d0]; omega)) ?_
+          intro fg _
+          refine tri_bind (tri_required _ _) ?_
+          intro _ _
+          refine tri_bind (tri_pairsLoop _ fuel _ _ (by simp [d0]; omega)
+            (fun rules B' hB' => tri_ctx2Rule fuel B' (by simp [d0] at hB'; omega) _ rules)) ?_
+          intro rules _
+          exact tri_pure _ _
+        · refine tri_bind (tri_setsThen f fuel tArrow (by decide) (by decide) fuel _ [] (by simp [d0]; omega) (by simp [d0]; omega)) ?_
+          intro input _
+          refine tri_bind (tri_nestedLoop fuel _ [] (by simp [d0]; omega)) ?_
+          intro actions _
+          exact tri_pure _ _
+        · refine tri_bind (tri_pairsLoop _ fuel _ _ (by simp [d0]; omega)
+            (fun res B' hB' => tri_ctx1Rule f fuel B' (by simp [d0] at hB'; omega) res)) ?_
+          intro res _
+          exact tri_pure _ _
+      · intro r _
+        exact tri_subEnd _ r acc _ (ih _ _ _ (by simp [d0]; omega) (by simp [d0]; omega))
+
+theorem tri_readSeqCtx (f : Font) (fuel typ B : Nat) (h : B < fuel) : Tri cm B (readSeqCtx f fuel typ) d0 pT := by
+  unfold readSeqCtx
+  refine tri_bind (tri_header fuel B (by omega)) ?_
+  intro flags _
+  refine tri_bind (tri_ctxLoop f fuel fuel _ _ [] (by simp [d0]; omega) (by simp [d0]; omega)) ?_
+  intro subs _
+  exact tri_pure _ _
+
+theorem tri_chainLoop (f : Font) (fuel : Nat) : ∀ (n B : Nat) (st : ChSt) (acc : List Subtable),
+    B ≤ n → B ≤ fuel → Tri cm B (chainLoop f fuel n st acc) d0 pT := by
+  intro n
+  induction n with
+  | zero => intro B st acc h _; have : B = 0 := by omega
+            subst this; exact tri_zero _ _ _
+  | succ n ih =>
+    intro B st acc h hf
+    unfold chainLoop
+    have hdef : ∀ (B' : Nat) (m1 m2 : String) (c0 : ClsSt) (k : ClsSt → PM (List Subtable)), B' ≤ B - 1 →
+        (∀ c, Tri cm B' (k c) d0 pT) →
+        Tri cm B' (parseClassDef f fuel >>= fun d => addClass m1 m2 c0 d.1 d.2 >>= fun c =>
+          optional [tEOL] >>= fun _ => k c) d0 pT := by
+      intro B' m1 m2 c0 k hB' hk
+      refine tri_bind (tri_parseClassDef f fuel _ (by omega)) ?_
+      intro d _
+      refine tri_bind (tri_addClass _ _ _ _ _ _) ?_
+      intro c _
+      refine tri_bind (tri_opt0 _ [tEOL] (by decide) (by decide)) ?_
+      intro _ _
+      exact tri_mono (by simp [d0]) (hk c)
+    refine tri_bind (tri_optionalKeyword_dec B kwInputclass) ?_
+    intro b1 _
+    cases b1 with
+    | true =>
+      simp only [if_true]
+      refine tri_mono (B := B - 1) (by simp) ?_
+      exact hdef (B - 1) _ _ _ _ (Nat.le_refl _) (fun c => ih _ _ _ (by omega) (by omega))
+    | false =>
+      simp only [Bool.false_eq_true, if_false]
+      refine tri_bind (tri_optionalKeyword_dec _ kwBacktrackclass) ?_
+      intro b2 _
+      cases b2 with
+      | true =>
+        simp only [if_true]
+        refine tri_mono (B := B - 1) (by simp) ?_
+        exact hdef (B - 1) _ _ _ _ (Nat.le_refl _) (fun c => ih _ _ _ (by omega) (by omega))
+      | false =>
+        simp only [Bool.false_eq_true, if_false]
+        refine tri_bind (tri_optionalKeyword_dec _ kwLookaheadclass) ?_
+        intro b3 _
+        cases b3 with
+        | true =>
+          simp only [if_true]
+          refine tri_mono (B := B - 1) (by simp) ?_
+          exact hdef (B - 1) _ _ _ _ (Nat.le_refl _) (fun c => ih _ _ _ (by omega) (by omega))
+        | false =>
+          simp only [Bool.false_eq_true, if_false]
+          refine tri_bind (tri_peekType2 _) ?_
+          intro nextType _
+          refine tri_bind (P := pT) (d := d0) ?_ ?_
+          · refine tri_ite (fun _ => ?_) (fun _ => tri_ite (fun _ => ?_) (fun _ => ?_))
+            · refine tri_bind (tri_required _ _) ?_
+              intro _ _
+              refine tri_bind (tri_readGlyphList f fuel _ (by simp [d0]; omega)) ?_
+              intro fg _
+              refine tri_bind (tri_required _ _) ?_
+              intro _ _
+              refine tri_bind (tri_pairsLoop _ fuel _ _ (by simp [d0]; omega)
+                (fun rules B' hB' => tri_chain2Rule fuel B' (by simp [d0] at hB'; omega) _ _ _ rules)) ?_
+              intro rules _
+              exact tri_pure _ _
+            · refine tri_bind (tri_setsUntil f fuel tBar (by decide) (by decide) fuel _ [] (by simp [d0]; omega) (by simp [d0]; omega)) ?_
+              intro back _
+              refine tri_bind (tri_setsThen f fuel tBar (by decide) (by decide) fuel _ [] (by simp [d0]; omega) (by simp [d0]; omega)) ?_
+              intro input _
+              refine tri_bind (tri_setsUntil f fuel tArrow (by decide) (by decide) fuel _ [] (by simp [d0]; omega) (by simp [d0]; omega)) ?_
+              intro look _
+              refine tri_bind (tri_nestedLoop fuel _ [] (by simp [d0]; omega)) ?_
+              intro actions _
+              exact tri_pure _ _
+            · refine tri_bind (tri_pairsLoop _ fuel _ _ (by simp [d0]; omega)
+                (fun res B' hB' => tri_chain1Rule f fuel B' (by simp [d0] at hB'; omega) res)) ?_
+              intro res _
+              exact tri_pure _ _
+          · intro r _
+            exact tri_subEnd _ r acc _ (ih _ _ _ (by simp [d0]; omega) (by simp [d0]; omega))
+
+theorem tri_readChainedSeqCtx (f : Font) (fuel typ B : Nat) (h : B < fuel) :
+    Tri cm B (readChainedSeqCtx f fuel typ) d0 pT := by
+  unfold readChainedSeqCtx
+  refine tri_bind (tri_header fuel B (by omega)) ?_
+  intro flags _
+  refine tri_bind (tri_chainLoop f fuel fuel _ _ [] (by simp [d0]; omega) (by simp [d0]; omega)) ?_
+  intro subs _
+  exact tri_pure _ _
+
 theorem tri_parseLoop (f : Font) (fuel : Nat) : ∀ (n B : Nat) (acc : List Lookup), B ≤ n → B < fuel →
     Tri cm B (parseLoop f fuel n acc) d0 pT := by
   intro n
@@ -1087,10 +1547,19 @@ theorem tri_parseLoop (f : Font) (fuel : Nat) : ∀ (n B : Nat) (acc : List Look
       refine tri_ite (fun _ => ?_) (fun _ => ?_)
       · refine tri_bind (tri_readGpos4 f fuel (B - nt item) hbf) ?_
         intro l _; exact ih _ _ (by simp [d0]; omega) (by simp [d0]; omega)
-      refine tri_ite (fun hbad => ?_) (fun _ => tri_fatal _ _ _ _)
-      by_cases hcm : cm = true
-      · exact absurd (show Bad item = true from hbad) (by rw [hitem.2 hcm]; decide)
-      · exact tri_throw_unmodelled _ _ _ (by cases cm <;> simp_all)
+      refine tri_ite (fun _ => ?_) (fun _ => ?_)
+      · refine tri_bind (tri_readSeqCtx f fuel 5 (B - nt item) hbf) ?_
+        intro l _; exact ih _ _ (by simp [d0]; omega) (by simp [d0]; omega)
+      refine tri_ite (fun _ => ?_) (fun _ => ?_)
+      · refine tri_bind (tri_readChainedSeqCtx f fuel 6 (B - nt item) hbf) ?_
+        intro l _; exact ih _ _ (by simp [d0]; omega) (by simp [d0]; omega)
+      refine tri_ite (fun _ => ?_) (fun _ => ?_)
+      · refine tri_bind (tri_readSeqCtx f fuel 7 (B - nt item) hbf) ?_
+        intro l _; exact ih _ _ (by simp [d0]; omega) (by simp [d0]; omega)
+      refine tri_ite (fun _ => ?_) (fun _ => ?_)
+      · refine tri_bind (tri_readChainedSeqCtx f fuel 8 (B - nt item) hbf) ?_
+        intro l _; exact ih _ _ (by simp [d0]; omega) (by simp [d0]; omega)
+      exact tri_fatal _ _ _ _
 
 theorem wsum_le_length (l : List Tok) : wsum l ≤ l.length := by
   induction l with
@@ -1124,34 +1593,31 @@ theorem parseToks_total_gen (f : Font) (toks pre : List Tok) (t : Tok) (e : toks
   | error err => rw [hp] at this; simpa using this
   | ok p => simp
 
+/-- the parser on any item list that ends in a terminal item and has lines ≥ 1: lookups, or an
+error that carries a line number ≥ 1 (in particular no loop of the model runs out of fuel) -/
+theorem parseToks_total_full (f : Font) (toks pre : List Tok) (t : Tok) (e : toks = pre ++ [t])
+    (ht : t.terminal = true) (hl : ∀ u ∈ toks, 1 ≤ u.line) :
+    match parseToks f toks with
+    | .ok _ => True
+    | .error err => 1 ≤ err.line :=
+  parseToks_total_gen (cm := false) f toks pre t e ht (fun u hu => ⟨hl u hu, fun h => by cases h⟩)
+
 theorem parseToks_total (f : Font) (toks pre : List Tok) (t : Tok) (e : toks = pre ++ [t])
     (ht : t.terminal = true) (hl : ∀ u ∈ toks, 1 ≤ u.line) :
     match parseToks f toks with
     | .ok _ => True
     | .error err => 1 ≤ err.line ∨ err.cls = unmodelled := by
-  have := parseToks_total_gen (cm := false) f toks pre t e ht (fun u hu => ⟨hl u hu, fun h => by cases h⟩)
+  have := parseToks_total_full f toks pre t e ht hl
   cases hp : parseToks f toks with
   | ok r => trivial
-  | error err =>
-    rw [hp] at this
-    rcases this with h | h
-    · exact Or.inl h
-    · exact Or.inr h.2
+  | error err => rw [hp] at this; exact Or.inl this
 
-/-- no escape: when no item is the keyword of an unmodelled form, every error carries a line -/
 theorem parseToks_total_clean (f : Font) (toks pre : List Tok) (t : Tok) (e : toks = pre ++ [t])
     (ht : t.terminal = true) (hl : ∀ u ∈ toks, 1 ≤ u.line) (hb : ∀ u ∈ toks, Bad u = false) :
     match parseToks f toks with
     | .ok _ => True
-    | .error err => 1 ≤ err.line := by
-  have := parseToks_total_gen (cm := true) f toks pre t e ht (fun u hu => ⟨hl u hu, fun _ => hb u hu⟩)
-  cases hp : parseToks f toks with
-  | ok r => trivial
-  | error err =>
-    rw [hp] at this
-    rcases this with h | h
-    · exact h
-    · exact absurd h.1 (by decide)
+    | .error err => 1 ≤ err.line :=
+  parseToks_total_full f toks pre t e ht hl
 
 
 end SfntV.Dsl
